@@ -16,8 +16,14 @@ OBLIGATIONS = [
     "KafVerif.C35.case_insensitive_partial",
     "KafVerif.C35.case_insensitive_topics",
     "KafVerif.C35.slices_provenance",        # regenerated from parser.go on every run (go/ast extractor)
+    "KafVerif.C35.no_package_level_mutable_state",   # regenerated: package-level vars of internal/sql and who writes them
+    "KafVerif.C35.asciiLower_pointwise",
+    "KafVerif.C35.lowerB_spec",
+    "KafVerif.C35.asciiLower_context_free",
+    "KafVerif.C35.keyword_lowered_in_place",
 ]
-BUILDS = {"h": ("sql", "./cmd/verif_c35", ["C35"])}
+BUILDS = {"h": ("sql", "./cmd/verif_c35", ["C35"]),
+          "hr": ("sql", "./cmd/verif_c35", ["C35"], {"race": True})}     # same harness under the race detector
 ENGINES = ["lean-kafverif", "go-overlay-harness", "ast-extract"]
 TECHNIQUE = ("Lean 4 totality proof over a byte-level model of parser.go (every slice expression with Go's bounds rule) "
              "+ Go/Lean differential correspondence of the parsed fields + crash and keyword-case monitors on the real Parse")
@@ -54,6 +60,12 @@ KW_CASE = ["select", "from", "where", "and", "join", "left", "on", "group", "by"
 SAFE_NONASCII = ["é", "ß", "日", "ⱥ", "ñ", "ω", "ж", "𝛑", "😀"]       # no case mapping to another rune, not white space
 HOSTILE = ["Ⱥ", "İ", "K", "ſ", "É", "ẞ", "Ǆ", "\u0085", " ", " ", " ", "ǅ", "Ω"]
 WS = [" ", " ", " ", "  ", "\t", "\n", " \r\n", "\x0b", "\x0c"]
+# Unicode white space (strings.Fields / TrimSpace split on it, regexp \s and \b do not see it) and other runes that users
+# paste next to a keyword (IME ideographic space, no-break space, …)
+NONASCII_SPACES = ["\u3000", "\u00a0", "\u2003", "\u0085", "\u2028", "\u1680"]
+NONASCII_RUNES = ["é", "日", "😀", "ß", "Ⱥ", "\u212a"]
+ILL_FORMED = [b"\x80", b"\xc3", b"\xff", b"\xe3\x80", b"\xc0\x80", b"\xf0\x9f\x98"]
+WS_EXT = WS + WS + NONASCII_SPACES                     # separators of the case-variant / hostile streams
 
 
 PARSER_GO = "addons/processors/sql-processor/internal/sql/parser.go"
@@ -100,13 +112,40 @@ def lean_slices(table):
     out.append("def calls : List CallRow := [\n" + ",\n".join(crows) + "]\n")
     out.append("-- offset expressions: " + "; ".join("%d=%s" % (i, o) for o, i in sorted(offs.items(), key=lambda x: x[1])))
     out.append("-- strings.ToLower / ToUpper call sites: " + "; ".join("%s:%d %s" % (l["fn"], l["line"], l["call"]) for l in (table["lowerings"] or [])))
+    vrows = []
+    for v in table.get("pkg_vars") or []:
+        vrows.append("  -- %s:%d  var %s (%s): %d write, %d alias, %d read sites; %d accesses in lock-less functions\n  ⟨%d, %s, %d, %d⟩" % (
+            v["file"], v["line"], v["name"], v["kind"], v["writes"], v["aliases"], v["reads"], v["unguarded"],
+            v["line"], VAR_KINDS.get(v["kind"], "kOther"), v["writes"] + v["aliases"], v["unguarded"]))
+    out += ["", "/-- every package-level `var` of internal/sql (non-test files) and how function bodies use it -/",
+            "def pkgVars : List VarRow := [" + ("\n" + ",\n".join(vrows) if vrows else "") + "]"]
     out += ["", "end KafVerif.Gen.C35Slices", "",
+            "/-- **C35 (generated).** `Parse` runs on one goroutine per client connection: no package-level variable of the",
+            "current internal/sql is written (or aliased) by a function body without a lock - a compiled regexp or a table that is",
+            "only read is fine, a lock-less cache map is `fatal error: concurrent map writes`. -/",
+            "theorem KafVerif.C35.no_package_level_mutable_state :",
+            "    ∀ v ∈ KafVerif.Gen.C35Slices.pkgVars, v.kind = KafVerif.SqlSlices.kSync ∨ v.writes = 0 ∨ v.unguarded = 0 :=",
+            "  (KafVerif.SqlSlices.varsOk_iff _).1 (by decide)", "",
             "set_option maxRecDepth 100000 in",
             "/-- **C35 (generated).** Every slice / index expression of the current parser.go indexes the sequence its bounds",
             "were computed on, or a byte-length-equal lowering of it (same root, same offset; parameters aligned at every call site). -/",
             "theorem KafVerif.C35.slices_provenance :",
             "    KafVerif.SqlSlices.checkAll KafVerif.Gen.C35Slices.slices KafVerif.Gen.C35Slices.calls = true := by decide", ""]
     return "\n".join(out)
+
+
+VAR_KINDS = {"scalar": "kScalar", "map": "kMap", "slice": "kSlice", "array": "kArray", "pointer": "kPointer",
+             "regexp": "kRegexp", "sync": "kSync", "func": "kFunc", "other": "kOther"}
+
+
+def failing_vars(table):
+    """Python twin of SqlSlices.varOk (only used to NAME the offending variables in the report)."""
+    bad = []
+    for v in table.get("pkg_vars") or []:
+        if v["kind"] != "sync" and v["writes"] + v["aliases"] > 0 and v["unguarded"] > 0:
+            bad.append("%s:%d  var %s (%s) is written without a lock: %s; %d access sites in functions that take no lock" % (
+                v["file"], v["line"], v["name"], v["kind"], ", ".join(v["sites"] or []), v["unguarded"]))
+    return bad
 
 
 def failing_rows(table):
@@ -158,7 +197,9 @@ def generate(ck):
         os.replace(tmp, fn)
     ck.count("slice_rows", len(table["slices"] or []))
     ck.count("call_rows", len(table["calls"] or []))
+    ck.count("package_level_vars", len(table.get("pkg_vars") or []))
     ck.slice_failures = failing_rows(table)
+    ck.var_failures = failing_vars(table)
 
 
 GO_LOWER = {"İ": "i", "\u212a": "k", "Ⱥ": "ⱥ", "Ⱦ": "ⱦ", "ẞ": "ß", "É": "é", "Ω": "ω", "Ǆ": "ǆ", "ǅ": "ǆ"}
@@ -347,13 +388,13 @@ def gen_query(rng, hostile=False, with_ts=False):
     return toks
 
 
-def render(rng, toks, case=None):
+def render(rng, toks, case=None, ws=WS):
     out = rng.choice(["", "", " ", "\n "])
     for i, tok in enumerate(toks):
         w, kw = tok[0], tok[1]
         glued = len(tok) > 2 and tok[2]
         if i and not glued:
-            out += rng.choice(WS)
+            out += rng.choice(ws)
         out += (case(w) if (kw and case) else w)
     out += rng.choice(["", "", ";", " ;", "; ", "\n"])
     return out
@@ -369,6 +410,90 @@ def inv_title_case(w):
 
 def per_letter(rng):
     return lambda w: "".join(c.upper() if rng.chance(1, 2) else c.lower() for c in w)
+
+
+def glue_rune_before_keyword(rng, toks, runes):
+    """Put a non-ASCII rune DIRECTLY before one keyword token (no white space between the rune and the keyword letter)."""
+    ks = [i for i, t in enumerate(toks) if t[1]]
+    if not ks:
+        return toks
+    j = rng.choice(ks)
+    toks = list(toks)
+    toks[j] = (toks[j][0], True, True)
+    toks.insert(j, (rng.choice(runes), False) + ((True,) if rng.chance(1, 2) and j else ()))
+    return toks
+
+
+ADJ_TEMPLATES = [
+    "SELECT a AS b , COUNT (*) FROM orders o LEFT JOIN payments p ON o._key = p._key WITHIN 10m WHERE _partition = 1 AND _offset >= 5 "
+    "GROUP BY a ORDER BY _ts DESC LIMIT 5 LAST 1h TAIL 3 SCAN FULL",
+    "SELECT * FROM orders WHERE _partition = 1",
+    "SELECT * FROM orders LIMIT 5",
+    "SELECT * FROM a JOIN b ON a._key = b._key",
+    "EXPLAIN SELECT JSON_VALUE (_value, '$.a') AS s FROM t WHERE _ts BETWEEN '2024-01-01 00:00:00' AND '2024-01-02 00:00:00' ORDER BY x ASC",
+    "SELECT MIN (_offset), MAX (_offset), SUM (x), AVG (x), JSON_QUERY (_value, '$.m'), JSON_EXISTS (_value, '$.i') FROM t",
+    "SHOW PARTITIONS FROM t",
+    "SHOW TOPICS",
+    "DESCRIBE t",
+]
+
+
+def adjacency_groups():
+    """Every keyword of every template with every non-ASCII separator / rune / ill-formed sequence DIRECTLY before its first
+    letter (replacing the white space, or after it), in 4 keyword-case spellings: the spellings must parse alike.
+    Returns a list of groups (lists of byte strings)."""
+    seps = [r.encode() for r in NONASCII_SPACES + NONASCII_RUNES] + ILL_FORMED
+    styles = (lambda w: w.lower(), lambda w: w.upper(), title_case, inv_title_case)
+    groups = []
+    for t in ADJ_TEMPLATES:
+        words = t.split(" ")
+        kws = [i for i, w in enumerate(words) if w.isupper() and w.lower() in KW_CASE]
+        for n, j in enumerate(kws):
+            # short statements: every separator in both positions; long ones: the Unicode spaces + a rotating rune
+            mine = seps if len(kws) <= 4 else seps[:2] + [seps[2 + (n % (len(seps) - 2))]]
+            for m, sep in enumerate(mine):
+                for keep_space in ((False, True) if len(kws) <= 4 else ((n + m) % 2 == 1,)):
+                    g = []
+                    for st in styles:
+                        out = b""
+                        for i, w in enumerate(words):
+                            txt = (st(w) if i in kws else w).encode()
+                            if i == j:
+                                out += (b" " if (keep_space and i) else b"") + sep + txt
+                            else:
+                                out += (b" " if i else b"") + txt
+                        g.append(out)
+                    groups.append(g)
+    return groups
+
+
+def lower_stream(rng, n_random):
+    """Inputs of lowerASCII: an upper-case ASCII letter directly after a non-ASCII rune / an ill-formed sequence - every
+    keyword, every position - plus every non-ASCII byte before every letter, plus random bytes."""
+    seqs = [r.encode() for r in NONASCII_SPACES + NONASCII_RUNES] + ILL_FORMED
+    out = [b"", b"A", b"Z", b"@[`{", bytes(range(256)), bytes(range(255, -1, -1)), "ÀÉÎÕÜ".encode()]
+    for kw in KW_CASE + ["group by", "order by"]:
+        K = kw.upper().encode()
+        for i in range(len(K) + 1):
+            for r in seqs[:1] + seqs[1 + i % 2::2]:
+                out.append(K[:i] + r + K[i:])
+        for r in seqs:
+            out.append(b"SELECT * FROM orders" + r + K + b" X")
+            out.append(r + r + K)
+            out.append(K + r + K + r)
+    for b in range(128, 256):
+        out.append(bytes([b]) + b"ABCDEFGHIJKLMNOPQRSTUVWXYZ")
+        out.append(b"".join(bytes([b, c]) for c in range(65, 91)))
+    for _ in range(n_random):
+        k = rng.below(3)
+        if k == 0:
+            out.append(rng.bytes(rng.range(1, 40)))
+        else:
+            parts = []
+            for _ in range(rng.range(1, 8)):
+                parts.append(rng.choice(seqs) if rng.chance(1, 2) else rng.choice(KW_CASE).upper().encode()[:rng.range(1, 6)])
+            out.append(b"".join(parts))
+    return out
 
 
 def mutate(rng, q):
@@ -429,9 +554,9 @@ def canon_full(full):
     return json.dumps(walk(json.loads(full)), sort_keys=True)
 
 
-def run_go(ck, binary, qs, tag):
+def run_go(ck, binary, qs, tag, op="p"):
     fn = ck.path("ops_%s.txt" % tag)
-    open(fn, "w").write("".join("p %s\n" % lib.hexs(q) for q in qs))
+    open(fn, "w").write("".join("%s %s\n" % (op, lib.hexs(q)) for q in qs))
     rc, out, err = ck.run_bin(binary, stdin_path=fn, timeout=300)
     lines = out.split("\n")[:-1]
     if rc != 0 or len(lines) != len(qs):
@@ -446,6 +571,108 @@ def shrink_panic(ck, binary, q):
     return bytes(lib.ddmin(list(q), fails))
 
 
+def check_lowering(ck, binary, lows):
+    """lowerASCII (through VerifLowerASCII) against (a) the byte map itself and (b) the Lean model's asciiLower."""
+    lines, fn, crash = run_go(ck, binary, lows, "lower", op="l")
+    if crash:
+        ck.broke("implementation harness did not answer every `l` line", crash)
+        return False
+    for q, l in zip(lows, lines):
+        want = "lower " + lib.hexs(q.lower())           # bytes.lower(): ASCII letters only, byte by byte
+        ck.case((b"l", q), nontrivial=(q.lower() != q))
+        if l != want:
+            def fails(cand):
+                ls, _, cr = run_go(ck, binary, [bytes(cand)], "ddl", op="l")
+                return ls is not None and ls[0] != "lower " + lib.hexs(bytes(cand).lower())
+            small = bytes(lib.ddmin(list(q), fails))
+            got, _, _ = run_go(ck, binary, [small], "ddl", op="l")
+            ck.violation("lowerascii-not-a-byte-map",
+                         "lowerASCII(%r) = %s, expected %r: an upper-case ASCII letter is not lowered (or another byte is changed) "
+                         "depending on its neighbours, so a keyword next to a non-ASCII rune is read differently in upper and "
+                         "lower case" % (small, got[0] if got else "?", small.lower()),
+                         {"lower_hex": [small.hex()], "input": small.decode("utf8", "replace"),
+                          "expected": small.lower().hex(), "actual": got[0] if got else "?"})
+            break
+    ck.count("lowerascii_inputs", len(lows))
+    mfn = ck.path("model_lower.txt")
+    open(mfn, "w").write("".join("l %s\n" % lib.hexs(q) for q in lows))
+    model = ck.lean_run("C35", mfn)
+    if len(model) != len(lows):
+        ck.broke("model driver did not answer every `l` line", "%d/%d" % (len(model), len(lows)))
+        return False
+    for q, l, m in zip(lows, lines, model):
+        ck.cov["traces_validated_against_impl"] += 1
+        if l != m and l != "panic":
+            ck.cov["disagreements_checked"] += 1
+            ck.broke("correspondence model/implementation (lowerASCII vs asciiLower)", "input %r\nimpl : %s\nmodel: %s" % (q, l, m))
+            break
+    return True
+
+
+RACE_RE = re.compile(r"WARNING: DATA RACE.*?(?:==================|\Z)", re.S)
+
+
+def conc_once(ck, binary, fn, goroutines, per, race):
+    env = {"GORACE": "halt_on_error=1 exitcode=66"} if race else {}
+    rc, out, err = ck.run_bin(binary, args=["conc", str(goroutines), str(per)], stdin_path=fn, env=env, timeout=300)
+    done = [l for l in out.split("\n") if l.startswith("conc-done")]
+    return rc, out, err, (done[0] if done else None)
+
+
+def concurrent_monitor(ck, bins, qs, quick, plan=None):
+    """Fresh child processes in which N goroutines (= client connections) parse at the same moment.  A Go fatal error
+    (concurrent map writes) cannot be recovered: the process dies, we see the exit status.  One variant of the harness is
+    built with -race: a race report with a frame in internal/sql is a violation as well."""
+    fn = ck.path("ops_conc.txt")
+    open(fn, "w").write("".join("p %s\n" % lib.hexs(q) for q in qs))
+    plan = plan or {"cold_starts": 30 if quick else 200, "goroutines": 64, "per_goroutine": 3,
+                    "race_cold_starts": 2 if quick else 8, "race_goroutines": 8, "race_per_goroutine": 12 if quick else 60}
+    rep = {"queries_hex": [q.hex() for q in qs], "concurrent": plan}
+
+    def outcome(rc, out, err, done, race):
+        if race and "WARNING: DATA RACE" in err:
+            blocks = [b for b in RACE_RE.findall(err)]
+            ours = [b for b in blocks if "/internal/sql." in b or "/internal/sql/" in b]
+            if ours:
+                ck.violation("parse-data-race",
+                             "two goroutines calling sql.Parse race on shared memory (race detector, %d goroutines, cold start):\n%s"
+                             % (plan["race_goroutines"], ours[0][:1800]),
+                             dict(rep, expected="no data race inside internal/sql", actual=ours[0][:3000]))
+                return False
+            ck.count("race_reports_outside_internal_sql")
+            return True
+        if rc != 0 or done is None:
+            fatal = [l for l in err.split("\n") if l.startswith("fatal error:") or l.startswith("panic:")]
+            if fatal:
+                ck.violation("concurrent-parse-kills-process",
+                             "a process in which %d goroutines call sql.Parse at the same moment (cold start) died: %s (exit status %s); "
+                             "no recover can stop a Go fatal error, one client takes the SQL server down"
+                             % (plan["goroutines"], fatal[0], rc),
+                             dict(rep, expected="every child process exits 0", actual=fatal[0], stderr=err[:3000]))
+            else:
+                ck.broke("concurrent harness run failed", "rc=%s stdout=%s stderr=%s" % (rc, out[-500:], err[-1500:]))
+            return False
+        m = re.search(r"mismatches=(\d+)", done)
+        if m and int(m.group(1)) > 0:
+            ck.violation("concurrent-parse-differs",
+                         "sql.Parse answered differently when called from several goroutines at once: " + out[:600],
+                         dict(rep, expected="the sequential answers", actual=out[:1500]))
+            return False
+        return True
+    # the race detector first: it sees an unsynchronised access pair whether or not the two goroutines collide this time
+    for i in range(plan["race_cold_starts"]):
+        rc, out, err, done = conc_once(ck, bins["hr"], fn, plan["race_goroutines"], plan.get("race_per_goroutine", 12), True)
+        ck.count("race_detector_cold_starts")
+        if not outcome(rc, out, err, done, True):
+            break
+    for i in range(plan["cold_starts"]):
+        rc, out, err, done = conc_once(ck, bins["h"], fn, plan["goroutines"], plan.get("per_goroutine", 3), False)
+        ck.count("concurrent_cold_starts")
+        if not outcome(rc, out, err, done, False):
+            break
+    ck.count("concurrent_statements_per_goroutine", len(qs))
+
+
 def run(ck):
     ck.partial = partial_text
     bins = ck.build_all()
@@ -453,6 +680,7 @@ def run(ck):
         return
     binary = bins["h"]
     quick = ck.quick()
+    ck.log("harness built (plain + -race)")
     n_valid = 1500 if quick else 15000
     ck.cov["rule"] = ("query texts from a grammar of the supported statements (random keyword case, ASCII white space incl. "
                       "\\v \\f, identifiers with caseless non-ASCII runes, numeric boundary values), byte-level mutations of "
@@ -474,28 +702,37 @@ def run(ck):
         corr.append(q)
         if i % 3 == 0:
             corr.append(mutate(rng.fork(), q.decode()))
+        if i % 5 == 0:       # a caseless non-ASCII rune glued in front of a keyword (inside the model's domain)
+            r = rng.fork()
+            toks2 = glue_rune_before_keyword(r, toks, SAFE_NONASCII)
+            corr.append(render(r, toks2, case=lambda w: rand_case(r, w)).encode())
     # keyword-case variants (monitor on the implementation only; includes _ts filters)
     groups = []
     for i in range(300 if quick else 3000):
         toks = gen_query(rng.fork(), hostile=(i % 4 == 0), with_ts=True)
+        if i % 3 == 1:       # a non-ASCII white space / rune directly before a keyword letter
+            toks = glue_rune_before_keyword(rng.fork(), toks, NONASCII_SPACES + NONASCII_RUNES)
         seed = rng.next()
         vs = []
         for style in (lambda w: w.lower(), lambda w: w.upper(), title_case, inv_title_case, None, None):
             r = lib.SplitMix64(seed)      # same white space for every variant
             f = style if style is not None else per_letter(rng.fork())   # every letter of every keyword token
-            vs.append(render(r, toks, case=f).encode())
+            vs.append(render(r, toks, case=f, ws=(WS_EXT if i % 2 else WS)).encode())
         groups.append((len(variants), len(vs)))
         variants += vs
+    for g in adjacency_groups():
+        groups.append((len(variants), len(g)))
+        variants += g
     for i in range(400 if quick else 4000):
         k = rng.below(3)
         if k == 0:
             toks = gen_query(rng.fork(), hostile=True, with_ts=True)
             r = rng.fork()
-            hostile.append(mutate(rng.fork(), render(r, toks, case=lambda w: rand_case(r, w))))
+            hostile.append(mutate(rng.fork(), render(r, toks, case=lambda w: rand_case(r, w), ws=WS_EXT)))
         elif k == 1:
             toks = gen_query(rng.fork(), hostile=True, with_ts=True)
             r = rng.fork()
-            hostile.append(render(r, toks, case=lambda w: rand_case(r, w)).encode())
+            hostile.append(render(r, toks, case=lambda w: rand_case(r, w), ws=WS_EXT).encode())
         else:
             hostile.append(rng.bytes(rng.range(0, 60)))
     clause = clause_last_stream()
@@ -505,6 +742,7 @@ def run(ck):
         ck.broke("implementation harness did not answer every line", crash)
         return
     impl = [split_out(l) for l in lines]
+    ck.log("implementation answered %d statements" % len(allq))
     # ---- monitor 1: never crashes
     for q, (c, _) in zip(allq, impl):
         ck.count({"panic": "panic", "err": "err"}.get(c, "ok"))
@@ -540,6 +778,19 @@ def run(ck):
     if getattr(ck, "slice_failures", None):
         ck.broke("slice provenance table regenerated from parser.go (KafVerif.C35.slices_provenance)",
                  "index computed on a different string than the one sliced:\n" + "\n".join(ck.slice_failures))
+    if getattr(ck, "var_failures", None):
+        ck.broke("package-level variables regenerated from internal/sql (KafVerif.C35.no_package_level_mutable_state)",
+                 "Parse runs on one goroutine per connection; shared state written without a lock:\n" + "\n".join(ck.var_failures))
+    # ---- monitor 3 + correspondence: the statement-wide lowering is the byte map of the model
+    lows = lower_stream(rng.fork(), 300 if quick else 5000)
+    if not check_lowering(ck, binary, lows):
+        return
+    ck.log("lowerASCII compared on %d inputs" % len(lows))
+    # ---- monitor 4: concurrent connections, cold start (fatal errors / data races / answers that differ)
+    conc_qs = [q for q, (c, _) in zip(corr, impl) if c.startswith("ok")]
+    conc_qs = [ADJ_TEMPLATES[0].encode(), ADJ_TEMPLATES[4].encode(), ADJ_TEMPLATES[5].encode()] + conc_qs[:(21 if quick else 200)]
+    concurrent_monitor(ck, bins, conc_qs, quick)
+    ck.log("concurrent cold starts done")
     # ---- monitor 2: keyword case does not matter
     base = len(corr)
     for (a, n) in groups:
@@ -563,7 +814,9 @@ def run(ck):
     idx = [i for i, q in enumerate(allq) if in_domain(q)]
     mfn = ck.path("model_in.txt")
     open(mfn, "w").write("".join("p %s\n" % lib.hexs(allq[i]) for i in idx))
+    ck.log("model: %d statements in domain" % len(idx))
     model = ck.lean_run("C35", mfn)
+    ck.log("model answered")
     if len(model) != len(idx):
         ck.broke("model driver did not answer every line", "%d/%d" % (len(model), len(idx)))
         return
@@ -589,7 +842,17 @@ def replay(ck, path):
     bins = ck.build_all()
     if bins is None:
         return
+    if rep.get("lower_hex"):
+        check_lowering(ck, bins["h"], [bytes.fromhex(h) for h in rep["lower_hex"]])
+        ck.cov["distinct_nontrivial"] = max(ck.cov["distinct_nontrivial"], 2)
+        return
     qs = [bytes.fromhex(h) for h in rep["queries_hex"]]
+    if rep.get("concurrent"):
+        concurrent_monitor(ck, bins, qs, True, plan=rep["concurrent"])
+        for q in qs[:5]:
+            ck.case(q, sample={"query": q.decode("utf8", "replace")})
+        ck.cov["distinct_nontrivial"] = max(ck.cov["distinct_nontrivial"], 2)
+        return
     lines, fn, crash = run_go(ck, bins["h"], qs, "replay")
     if crash:
         ck.broke("implementation harness did not answer", crash)
